@@ -73,9 +73,12 @@ func (t *messageTransformSubscriberDecorator) Subscribe(ctx context.Context, top
 			select {
 			case out <- msg:
 			case <-ctx.Done():
-				// nobody has to read out any more: don't block Close, and close out as Subscribe promises
+				// nobody has to read out any more: don't block Close, and close out as Subscribe promises.
+				// The message was not delivered: tell the subscriber, it may be waiting for the settlement.
+				msg.Nack()
 				return
 			case <-t.closing:
+				msg.Nack()
 				return
 			}
 		}
